@@ -69,9 +69,9 @@ PROPS = {
     "C04": solver_prop("Props/Properties_C04.v", "proof",
         "Coq proof by invariant over the whole control flow of the solver model (levels monotone in global indices; every dated derivation justified by its cause; correctness of the satisfier search; the conflict incompatibility stays satisfied along the rule of resolution) + C01 + C06; exploration with a reachability checker on every Ok result, tied to the model by correspondence",
         "3 Coq theorems (Props/Properties_C04.v; Proofs/SolverReach1/2/.v ~1500 lines): for every lawful VersionSet, every registry with well-formed dependency sets, every provider trace that agrees with the registry and every fuel: if the model of resolve returns Ok(sol) then every selected package is the root or reachable from the root through the dependencies (as the registry gives them) of the SELECTED versions; equivalently every selected package other than the root is a dependency of some selected version (no orphan, e.g. one required only by a version that was backtracked away - the non-vacuity example is such a run). Proof: the solution restricted to the reachable packages is again a solution (C01); an unreachable selected package with the earliest first positive derivation would make that restriction violate the cause of the derivation, contradicting the validity of every stored incompatibility (C06). Oracle: every Ok result of the case stream is checked for reachability."),
-    "C05": solver_prop(None, "other",
+    "C05": solver_prop("Props/Properties_C05.v", "other",
         "exploration under catch_unwind and a call budget (debug assertions and overflow checks on), every panic site of the source is an explicit outcome of the Coq model",
-        "Termination is not provable with the available effort (section 10). The model has one Panic outcome per panic!/unwrap/expect/unreachable!/debug_assert site and the two Failure returns; the harness (built with debug-assertions and overflow-checks) runs every case under catch_unwind with a 20000-call budget: any panic, Failure or budget exhaustion on a fault-free well-behaved run is a violation; degenerate registries (root without versions, empty sets, unknown packages, cycles, self-dependencies, unavailable versions) are generated on purpose."),
+        "Coq (4 theorems, Props/Properties_C05.v): with a provider whose choose_version answers inside the offered set the model never returns Failure (the 'no term' failure is excluded for any trace); building the derivation tree never fails. Termination is not provable with the available effort (section 10), and the unreachability of the panic sites is only partly proved (see DESIGN 13). The model has one Panic outcome per panic!/unwrap/expect/unreachable!/debug_assert site and the two Failure returns; the harness (built with debug-assertions and overflow-checks) runs every case under catch_unwind with a 20000-call budget: any panic, Failure or budget exhaustion on a fault-free well-behaved run is a violation; degenerate registries (root without versions, empty sets, unknown packages, cycles, self-dependencies, unavailable versions) are generated on purpose."),
     "C06": solver_prop("Props/Properties_C06.v", "proof",
         "Coq proof by invariant over the solver model: every store entry is justified by its kind and valid (external constructors, merged dependents, rule of resolution), preserved by unit propagation, conflict resolution, backtracking and the main loop",
         "7 Coq theorems: for every lawful VersionSet, registry, well-behaved trace and fuel, every incompatibility in the model's store (external, merged, learned, intermediate prior causes; runs ending in Ok, NoSolution, errors or cut short) is valid: no solution makes all its terms true. Tie: full-trace correspondence; oracle: validity of every store entry of the replayed run against all solutions of the registry (complete enumeration on small registries).",
@@ -81,9 +81,9 @@ PROPS = {
         "repeat-run comparison in one process and across fresh processes, integer and string package names; the Coq model is a function of the provider answers",
         "A Gallina function is deterministic by construction, so the content is that the Rust code is such a function. Every case is run twice in-process (trace and result compared) and the whole case stream is produced a second time by a fresh process with a different environment and compared byte for byte; the model must reproduce every trace from the recorded answers alone. Coq (1 theorem): the model's result depends only on the consumed prefix of the answers.",
         extra={"cross_process": True}),
-    "C12": solver_prop("Props/Properties_C12.v", "other",
-        "protocol checker on every recorded callback trace + Coq model that consumes the trace in protocol order",
-        "Coq (6 theorems, Props/Properties_C12.v; the 6th - for every lawful VersionSet and every trace with well-formed dependency sets, the set of each accepted choose_version(p, set) call is the set of the LAST prioritize call for p before it - is clause (3) without its 'non-empty' part): for ANY trace and fuel the calls the model consumes are accepted by the protocol scanner `shape`, from which clauses (1) get_dependencies only right after the choose_version that returned that version, (2) at most once per (p,v), and (5) should_cancel first and between choose_version calls are derived; clauses (3) (set identical to the last prioritize set, non-empty) and (4) (first query = root with the singleton) are NOT proved and are decided by the trace checker. Every recorded trace is checked for the six protocol clauses (get_dependencies only right after the choose_version that returned that version, at most once per (p,v); choose_version with a non-empty set identical to the last prioritize set; first query root with the singleton; should_cancel first and between choose_version calls), and the model only accepts traces in which each call is the one it would make.", domains=("solver", "faults")),
+    "C12": solver_prop("Props/Properties_C12.v", "proof",
+        "Coq proof: structural protocol scanner over the consumed trace + queue and non-emptiness invariants of the solver model; protocol checker on every recorded callback trace of the implementation",
+        "8 Coq theorems (Props/Properties_C12.v; Proofs/SolverProtocol.v, SolverQueue2.v, SolverProto2.v), all clauses of the property for the model of resolve, for ANY fuel: the calls the model consumes are accepted by the protocol scanner `shape` (any trace): should_cancel is the first call and occurs between any two choose_version calls; get_dependencies(p, v) only immediately after the choose_version(p, .) that returned v; at most once per (p, v); and, for every lawful VersionSet and every trace whose dependency answers carry well-formed sets: the set of each choose_version(p, set) call is the set of the LAST prioritize call for p and is NOT EMPTY; the FIRST choose_version call is for the root with the singleton set of the requested version, preceded by exactly one should_cancel and one prioritize call. Tie: the model replays every recorded trace (it refuses any call it would not make itself), and the protocol checker of the harness checks all clauses on the implementation's own trace."),
     "C13": solver_prop("Props/Properties_C13.v", "other",
         "fault enumeration: every position of the fault-free trace, every callback kind, plus out-of-set answers; compared with the Coq model",
         "Coq (5 theorems): the result is a function of the consumed prefix of the answers; error outcomes are explained by an error answer of the matching callback; an error answer is the LAST call of the run (nothing follows it among the consumed calls) and the outcome is then the matching error carrying the queried package and version. Exploration: for each base run a fault is injected at every index of its callback trace (error at should_cancel / choose_version / get_dependencies; out-of-set version at choose_version): the faulty trace must equal the fault-free one up to the fault, stop there, and the result must be the matching error variant with the same payload (package and version for get_dependencies) or Failure for an out-of-set version; the model reproduces each faulty run. Coq (2 theorems, Props/Properties_C13.v): the model's result is a function of the consumed trace prefix (no further call matters once the outcome is determined) and every error outcome is explained by an error answer of the matching callback with the same package and version (or an out-of-set answer for Failure).",
@@ -108,9 +108,9 @@ PROPS = {
     },
     "C09": {
         "props": "Props/Properties_C09.v",
-        "level": "other",
+        "level": "proof",
         "technique": "Coq proof over a Gallina model of collapse_no_versions / merge_no_versions (explicit PANIC outcome): structural clauses for all trees, semantic preservation on any admissible set of assignments for every lawful VersionSet; + correspondence and an independent semantic oracle (validity on existing versions) on resolve trees with their registries and on synthetic DAGs",
-        "level_text": "15 Coq theorems (Model/Report.v; Proofs/ReportProofs.v, SolverCollapse.v). For the trees resolve produces (nosolution_tree_meets_collapse_hypotheses, nosolution_tree_collapse): every NoSolution tree of the solver model is well formed, its NoVersions leaves are true on existing versions, its derived nodes are entailed for every assignment and it is `related`; hence, whenever it has no (NoVersions, NotRoot) pair, collapse_no_versions succeeds and the collapsed tree is locally entailed on existing versions, every leaf is equivalent on existing versions to a leaf of the original tree, NoVersions leaves survive only next to NoVersions/Custom leaves, and the top node still forbids the root. About collapse itself: For every VersionSet and EVERY tree: a tree without NoVersions leaves is returned unchanged; in the result every NoVersions leaf that is a cause of a derived node sits next to a NoVersions or Custom leaf; collapse panics if and only if some derived node has the causes (NoVersions, NotRoot) in either order, so it never panics otherwise, nor on its own result. For every lawful VersionSet and any set of admissible assignments on which the NoVersions leaves are true (instance: assignments selecting registry versions only): if the derived nodes of t follow from their causes, so do those of the collapsed tree; its NoVersions leaves stay true; every leaf of the result is a leaf of t or a dependency leaf fired by exactly the same admissible assignments as one of t (true of the provider stays true on existing versions); the new top node is fired wherever the old one was, so it still forbids the root. Hypotheses of the semantic theorems: well-formed (canonical) version sets in the leaves and `related t` (a NoVersions(p) cause whose sibling collapses to a dependency leaf p1->p2 is about p1 or p2; merge_no_versions does not check this and would widen the wrong set otherwise). LEFT TO EXPLORATION (why the level is not 'proof'): that trees produced by resolve contain no (NoVersions, NotRoot) pair - the 'never panics on a tree produced by resolve' clause; it is reduced in Coq to a condition on the run's store (nosolution_tree_no_pair_from_store: the not_root incompatibility is never a cause of a derived entry) whose run-level proof is pending, and is checked on every generated resolve tree (no panic observed), together with an independent re-check of all semantic clauses on the Rust result.",
+        "level_text": "17 Coq theorems (Model/Report.v; Proofs/ReportProofs.v, SolverCollapse.v, SolverNoPair.v). THE PROPERTY for the trees resolve produces (nosolution_tree_collapse_never_panics_and_stays_valid): for every lawful VersionSet, well-formed registry, well-behaved trace and fuel, collapse_no_versions never panics on a NoSolution tree of the solver model, and the collapsed tree is a valid explanation on existing versions (derived nodes entailed, NoVersions leaves true and surviving only next to NoVersions/Custom leaves, every leaf equivalent on existing versions to a leaf of the original tree, the top node still forbids the root); a tree without NoVersions leaves is returned unchanged. Ingredients: every NoSolution tree of the solver model is well formed, its NoVersions leaves are true on existing versions, its derived nodes are entailed for every assignment and it is `related`; hence, whenever it has no (NoVersions, NotRoot) pair, collapse_no_versions succeeds and the collapsed tree is locally entailed on existing versions, every leaf is equivalent on existing versions to a leaf of the original tree, NoVersions leaves survive only next to NoVersions/Custom leaves, and the top node still forbids the root. About collapse itself: For every VersionSet and EVERY tree: a tree without NoVersions leaves is returned unchanged; in the result every NoVersions leaf that is a cause of a derived node sits next to a NoVersions or Custom leaf; collapse panics if and only if some derived node has the causes (NoVersions, NotRoot) in either order, so it never panics otherwise, nor on its own result. For every lawful VersionSet and any set of admissible assignments on which the NoVersions leaves are true (instance: assignments selecting registry versions only): if the derived nodes of t follow from their causes, so do those of the collapsed tree; its NoVersions leaves stay true; every leaf of the result is a leaf of t or a dependency leaf fired by exactly the same admissible assignments as one of t (true of the provider stays true on existing versions); the new top node is fired wherever the old one was, so it still forbids the root. Hypotheses of the semantic theorems: well-formed (canonical) version sets in the leaves and `related t` (a NoVersions(p) cause whose sibling collapses to a dependency leaf p1->p2 is about p1 or p2; merge_no_versions does not check this and would widen the wrong set otherwise). The never-panics clause rests on the run-level invariant that the not_root incompatibility is never a cause of a derived entry (resolve_never_resolves_with_not_root). Exploration: every generated resolve tree and synthetic DAG is collapsed by the implementation and compared with the model, with an independent re-check of all semantic clauses on the Rust result.",
         "level_note": "Trusted: Coq kernel, extraction, harness/driver, the oracle of ocaml/d_report.ml. Arc::make_mut un-sharing is modelled by a function on trees (observationally identical: the collapsed tree is compared node by node including shared ids). For synthetic DAGs 'existing versions' are the versions outside the union of the tree's NoVersions sets per package. Leaves true of the registry and local entailment BEFORE the call are C03's business (a leaf is only blamed on collapse if all leaves were true before).",
         "domains": ["collapse"],
         "exhaustive": False,
